@@ -16,16 +16,36 @@ FUNCTIONS = ['hotxlfp.formulas.operators:evaluate_arithmetic', 'hotxlfp.formulas
              'hotxlfp.formulas.utils:serialize_date', 'hotxlfp.formulas.utils:parse_date',
              'hotxlfp.helper.number:to_number',
              'hotxlfp.grammarparser.parser:FormulaParser.p_expression_arithmetic_operator']
-RULE = ('ordered pairs of operands from a pool holding ints, floats, logicals, blank, numeric text (signs, decimals, spaces, '
-        'underscores), non-numeric text, ISO date text, dates and date-times, every error code, flat and nested arrays and '
-        'foreign objects, under each of + - * / &, injected as variables x, y (quick: seeded sample of the pool product; '
-        'thorough: the complete product). Non-trivial = neither operand is an error or a foreign object.')
+RULE = ('ordered pairs of operands from a pool of 91 values under each of + - * / &, injected as variables x, y. Pool: 68 scalars = '
+        '8 ints (up to 2^40), 6 floats (incl. -0.0, 0.1), TRUE, FALSE, blank; 11 numeric texts (signs, decimals, spaces, underscore, '
+        'leading zeros, exponent), 6 non-numeric texts (incl. empty, "TRUE", "#N/A"), 3 ISO date texts, 8 texts with quotation '
+        'marks of either kind at their ends or inside, 3 integers beyond 2^53 that no double holds and 5 such digit strings as '
+        'text (one padded with spaces); 11 dates and date-times (1900-01-01..03-01, milliseconds, 9999-12-31); 4 error values; 21 '
+        'flat, nested, empty, mixed, one-element (also holding an array or an error) arrays; 2 foreign objects (tuple, dict). '
+        'Thorough: the complete product (8281 pairs). Quick: complete on numbers/logicals/blank among themselves, date-times '
+        'among themselves and against those 17, the 8 beyond-2^53 values among themselves and against the 17, arrays against '
+        'arrays, plus a seeded sample of 700*scale pairs of the whole product. Both tiers: the quoted texts against the 17 and '
+        'each other. lit cases: every case with a quoted text, and 10 % of the other cases with a text operand, is run again with '
+        'the text operands written as string literals (delimited by the quote kind they do not contain) instead of variables. '
+        'Compared with the model unless an operand (or array element) is numeric text beyond ASCII decimal syntax or date text '
+        'beyond ISO-8601 (oracle only). Oracle: the conversion table on exact rationals (ints exactly, floats within 8 ulp or 1e-9 '
+        'relative, dates within 2 ms), the operands are left unchanged (repr), + and * give the same outcome with the operands '
+        'swapped (floats within 1e-12 relative; up to the error code when both operands hold errors). Not judged: foreign '
+        'operands without an error beside them; & on floats, logicals, dates, arrays; results beyond year 9999. Non-trivial = '
+        'neither operand is an error or a foreign object. When a proof or the correspondence broke: the complete product.')
 TRUSTED = ['Python int/float arithmetic (floats are modelled by exact rationals; results compared within 4 ulp or 1e-9 relative - serial arithmetic on date-times cancels ~5 digits)',
            'int()/float() text parsing beyond ASCII decimal syntax and dateutil beyond ISO-8601 are library behaviour '
-           '(such operands are judged by the oracle only, not compared with the model)',
+           '(such operands are judged by the oracle only, not compared with the model; the oracle classifies text with int(), float() '
+           'and dateutil.parser.parse itself: text they accept is a number / a date)',
            'str() of floats, dates and lists under & is not fixed by the statement and not modelled']
-ASSUMPTIONS = ['a one-element array acts as its element (the code\'s adapt_value), so only lengths m != n, both != 1, are a mismatch',
-               'date results with serial in [0,1) are not judged (the code maps them to 1900-01-01)']
+ASSUMPTIONS = ['a one-element array acts as its element (the code\'s adapt_value), on either side and at any depth, so only lengths m != n, '
+               'both != 1, are a mismatch (#VALUE!); two one-element arrays give a one-element array; otherwise element-wise',
+               'date results with serial in [0,1) or inside the phantom 29 Feb 1900 (60,61) are not judged beyond being a date-time '
+               '(the code maps the former to 1900-01-01); a negative date result is #NUM!',
+               'the table as read by the oracle: logicals are 1/0, blank is 0, non-numeric text is #VALUE!, x/0 is #DIV/0!, an error '
+               'operand is the result (the left one first); the result is a date for number or blank +,-,* date (either order) and '
+               'number / date, date / number; date - date and every other combination give a number',
+               '&: text verbatim, integers as their digits, blank as nothing, errors propagate (the left one first)']
 EXHAUSTIVE = {'quick': False, 'thorough': True}
 
 D = datetime.datetime
